@@ -300,7 +300,7 @@ theorem handle_wired (s s' : Sys) (m : Msg) (ms : List Msg) (w : Wired s) (hwf :
         by rw [c.2.1]; exact w.rwOwner, by rw [c.2.2]; exact w.rwNominee⟩
     · exact absurd c hs.2.2.2.2.1
     · exact absurd c hs.2.2.2.2.2
-  | disp env sender funds dm heq hx' h b t r g =>
+  | disp env sender funds dm heq _ _ hx' h b t r g =>
     have hs := hsender _ _ _ _ heq
     rcases dispExec_config _ _ _ _ _ _ _ hx' with c | c | c
     · exact ⟨by rw [b]; exact w.tokHub, by rw [h]; exact w.hubDisp, by rw [c.1]; exact w.dispRw,
